@@ -157,6 +157,15 @@ func (tdsChan *Channel) reset() {
 func (tdsChan *Channel) Close() error {
 	var me error
 
+	// Closing twice must neither talk to the server again nor close
+	// the already closed internal channels.
+	tdsChan.RLock()
+	closed := tdsChan.closed
+	tdsChan.RUnlock()
+	if closed {
+		return ErrChannelClosed
+	}
+
 	if tdsChan.channelId == 0 {
 		// Channel 0 is the main communication channel - send logout packages
 		if err := tdsChan.Logout(); err != nil {
@@ -184,6 +193,10 @@ func (tdsChan *Channel) Close() error {
 	tdsChan.Lock()
 	defer tdsChan.Unlock()
 
+	if tdsChan.closed {
+		// closed by a concurrent call to Close
+		return ErrChannelClosed
+	}
 	tdsChan.closed = true
 
 	// Channel closing has been communicated, remove channel from conn
